@@ -426,8 +426,46 @@ def align_existing(L: Layout, N: Layout, inserted: FrozenSet[str]) -> Optional[L
     return al[0] if al else None
 
 
-def _first_clean(L: Layout, N: Layout, inserted: FrozenSet[str], check) -> List["Problem"]:
+def split_alignment(L: Layout, N: Layout, inserted: FrozenSet[str], k: int) -> Optional[List[int]]:
+    """The alignment that puts every new moment at the boundary k: moments of L before k are
+    matched as early as possible, the others as late as possible.  (With many empty moments
+    the number of alignments is large; this is the one an insert at k produces.)"""
+    Nk = [sorted(o.uid for o in m if o.uid not in inserted) for m in N]
+    Lk = [sorted(o.uid for o in m) for m in L]
+    k = max(0, min(k, len(Lk)))
+    left: List[int] = []
+    j = 0
+    for want in Lk[:k]:
+        while j < len(Nk) and Nk[j] != want:
+            if Nk[j]:
+                return None
+            j += 1
+        if j >= len(Nk):
+            return None
+        left.append(j)
+        j += 1
+    right: List[int] = []
+    r = len(Nk) - 1
+    for want in reversed(Lk[k:]):
+        while r >= j and Nk[r] != want:
+            if Nk[r]:
+                return None
+            r -= 1
+        if r < j:
+            return None
+        right.append(r)
+        r -= 1
+    if any(Nk[x] for x in range(j, r + 1)):
+        return None
+    return left + right[::-1]
+
+
+def _first_clean(L: Layout, N: Layout, inserted: FrozenSet[str], check, k: Optional[int] = None) -> List["Problem"]:
     als = all_alignments(L, N, inserted)
+    if k is not None:
+        sp = split_alignment(L, N, inserted, k)
+        if sp is not None and sp not in als:
+            als.insert(0, sp)
     if not als:
         return [("C05-ORDER", f"existing operations were rearranged: {show(L)} -> {show(N)}")]
     first: Optional[List["Problem"]] = None
@@ -476,7 +514,8 @@ def check_insert_multi(L: Layout, N: Layout, index: int, items: Sequence, strate
     ins_ops = flatten_items(items)
     inserted = frozenset(o.uid for o in ins_ops)
     return _first_clean(L, N, inserted,
-                        lambda al: _insert_multi_aligned(L, N, index, items, strategy, returned, key_strict, al))
+                        lambda al: _insert_multi_aligned(L, N, index, items, strategy, returned, key_strict, al),
+                        k=clamp_index(len(L), index))
 
 
 def _insert_multi_aligned(L: Layout, N: Layout, index: int, items: Sequence, strategy: str,
@@ -582,7 +621,7 @@ def _insert_multi_aligned(L: Layout, N: Layout, index: int, items: Sequence, str
 def check_insert_into_range(L: Layout, N: Layout, ops: Sequence[AOp], start: int, end: int,
                             returned: Optional[int]) -> List[Problem]:
     inserted = frozenset(o.uid for o in ops)
-    return _first_clean(L, N, inserted, lambda al: _into_range_aligned(L, N, ops, start, end, returned, al))
+    return _first_clean(L, N, inserted, lambda al: _into_range_aligned(L, N, ops, start, end, returned, al), k=end)
 
 
 def _into_range_aligned(L: Layout, N: Layout, ops: Sequence[AOp], start: int, end: int,
@@ -628,7 +667,7 @@ def _into_range_aligned(L: Layout, N: Layout, ops: Sequence[AOp], start: int, en
 
 def check_insert_at_frontier(L: Layout, N: Layout, ops: Sequence[AOp], start: int) -> List[Problem]:
     inserted = frozenset(o.uid for o in ops)
-    return _first_clean(L, N, inserted, lambda al: _at_frontier_aligned(L, N, ops, start, al))
+    return _first_clean(L, N, inserted, lambda al: _at_frontier_aligned(L, N, ops, start, al), k=start)
 
 
 def _at_frontier_aligned(L: Layout, N: Layout, ops: Sequence[AOp], start: int, al: List[int]) -> List[Problem]:
